@@ -3,6 +3,7 @@
 package main
 
 import (
+	"sync"
 	"crypto/tls"
 	"encoding/binary"
 	"encoding/json"
@@ -25,6 +26,9 @@ type cutPoint struct {
 }
 
 var connCtr int
+
+// streamBarrier: runStream holds the upstream's replies to all queries of a connection and lets them go at once
+var streamBarrier bool
 
 func streamConn(in *inst, lst string) (net.Conn, error) {
 	addr := fmt.Sprintf("127.0.0.1:%d", in.ports[lst])
@@ -52,10 +56,17 @@ func runStream(in *inst, lst string, k int, cuts []cutPoint, mode string, delayL
 	var stream []byte
 	var ids []int
 	var names [][][]int
+	var barrier chan struct{}
+	if streamBarrier {
+		barrier = make(chan struct{})
+	}
 	bounds := []int{} // frame start offsets
 	for i := 0; i < k; i++ {
 		q := mkq(fmt.Sprintf("%s.%s.fr.test.", uniq(), delayLab(i)))
 		q.id = uint16(3000 + conn*37 + i)
+		if barrier != nil {
+			in.ups["u1"].holdWith(q.name, barrier)
+		}
 		if i%3 == 1 {
 			q.opt = true
 		}
@@ -146,6 +157,10 @@ func runStream(in *inst, lst string, k int, cuts []cutPoint, mode string, delayL
 			}
 		}
 	}
+	if barrier != nil {
+		time.Sleep(80 * time.Millisecond) // every query is waiting at the upstream by now
+		close(barrier)
+	}
 	got := <-done
 	in.tr.Emit("c13.ret", "conn", conn, "bytes", vtrace.Bytes(got))
 }
@@ -200,6 +215,24 @@ func modeC13(cutsFile string, thorough bool) {
 		if thorough {
 			runStream(in, lst, 50, nil, "random", fast, rng, 100)
 		}
+	}
+	// many pipelined queries whose upstream answers arrive at the same instant: the handlers of one connection
+	// finish together, and still every response is one contiguous frame (several connections at once)
+	same := func(i int) string { return "r0t60d0" }
+	{
+		streamBarrier = true
+		var wg sync.WaitGroup
+		for _, lst := range lsts {
+			for k := 0; k < map[string]int{"tls": 16, "tcp": 4, "gnet": 4}[lst]; k++ {
+				wg.Add(1)
+				go func(lst string, s int64) {
+					defer wg.Done()
+					runStream(in, lst, 12, nil, "one", same, rand.New(rand.NewSource(s)), 100)
+				}(lst, seed+int64(k))
+			}
+		}
+		wg.Wait()
+		streamBarrier = false
 	}
 	in.close()
 	// per-connection limit: queries beyond it are answered REFUSED, not dropped
